@@ -437,7 +437,7 @@ pub fn seeded_random_scalars(s: SuiteId, seed: &[u8], dst: &[u8], count: usize) 
     v.chunks(48).map(os2ip_mod_r).collect()
 }
 
-fn challenge(
+pub fn challenge(
     s: SuiteId,
     disclosed: &[(usize, Scalar)],
     abar: &G1Projective,
